@@ -5,6 +5,10 @@ from .. import apiworld, console, explorer, pubmodel, runner, worlds
 from ..vloop import EPS
 
 SPEC = "pvmc.props.c14:Scenario"
+
+
+def c_silent(w):
+    return w.console.silent
 POLL = 300.0
 
 
@@ -18,7 +22,7 @@ class Scenario(apiworld.ApiWorld):
         self.loop.settle()
         self.t_init = self.loop.time()
         self.net.auto = None                 # from now on the environment resolves connects
-        self.used = {"loss": 0, "edit": 0, "refuse": 0, "adv": 0, "gs": 0, "mute": 0, "cmd": 0, "tick": 0, "acs": 0}
+        self.used = {"loss": 0, "edit": 0, "refuse": 0, "adv": 0, "gs": 0, "mute": 0, "cmd": 0, "tick": 0, "acs": 0, "silent": 0}
         self.notified = []                   # (time, who, id) subscriber calls after init
         self.gs_sent = []                    # times at which the console sent a group/zone status (AT4 poll model)
         self.mute_gs = False
@@ -83,6 +87,8 @@ class Scenario(apiworld.ApiWorld):
                 acts += [("wait", 100.0)]
         if live and self.used["cmd"] < p.get("max_cmd", 0):
             acts.append(("cmd",))
+        if live and self.used["silent"] < p.get("max_silent", 0):
+            acts.append(("silent",))          # the console stops answering anything (a refresh stays unanswered)
         return acts
 
     def do(self, a):
@@ -144,6 +150,9 @@ class Scenario(apiworld.ApiWorld):
         elif op == "mute_gs":
             self.used["mute"] += 1
             self.mute_gs = True
+        elif op == "silent":
+            self.used["silent"] += 1
+            c.silent = True
         elif op == "cmd":
             self.used["cmd"] += 1
             self.call(self.at.check_for_updates, "check_for_updates")
@@ -173,7 +182,7 @@ class Scenario(apiworld.ApiWorld):
                                                            f"{'missing' if not hits else 'late at ' + str(hits[0])}")
         # (b) the model converges to what the console reports (judged when connected and quiescent)
         live = self.net.live()
-        if live and not self.mute_gs and not live[-1].eof_from_peer and live[-1].fail_after is None:
+        if live and not self.mute_gs and not c_silent(self) and not live[-1].eof_from_peer and live[-1].fail_after is None:
             d = pubmodel.diff(pubmodel.expected_view(self.gen, self.inst, self.console.state), pubmodel.observed_view(self.at))
             if d:
                 return self._v("model-converges", f"connected and quiescent at t={now} but {d[0]}")
@@ -231,6 +240,11 @@ class Scenario(apiworld.ApiWorld):
         before = pubmodel.observed_view(self.at)
         self.net.auto = "accept"
         self.mute_gs = False
+        if self.console.silent:
+            # the console answers again: one more loss makes the client ask afresh
+            self.console.silent = False
+            if self.net.live():
+                self.net.live()[-1].peer_eof()
         for t in self.net.conns:
             t.fail_after = None
         self.net.resolve_all(True)
@@ -280,12 +294,14 @@ def run(tier, seed, part=None):
                        "answering group status requests; environment events at quiescent points (thorough: one mid-reaction event)"]
     if tier == "quick":
         plans = [({"max_tick": 3, "max_loss": 1, "max_edit": 1, "max_adv": 1, "poll": False}, 6, 0),
-                 ({"max_tick": 4, "max_loss": 0, "max_edit": 0, "max_adv": 1, "poll": True}, 6, 0)]
+                 ({"max_tick": 4, "max_loss": 0, "max_edit": 0, "max_adv": 1, "poll": True}, 6, 0),
+                 ({"max_tick": 1, "max_loss": 2, "max_edit": 1, "max_adv": 0, "poll": False, "max_silent": 1}, 7, 0)]
         cap = 45
     else:
         plans = [({"max_tick": 4, "max_loss": 2, "max_edit": 2, "max_adv": 2, "poll": False, "max_cmd": 1}, 8, 0),
                  ({"max_tick": 6, "max_loss": 1, "max_edit": 1, "max_adv": 2, "poll": True}, 8, 0),
-                 ({"max_tick": 3, "max_loss": 1, "max_edit": 1, "max_adv": 1, "poll": True}, 6, 1)]
+                 ({"max_tick": 3, "max_loss": 1, "max_edit": 1, "max_adv": 1, "poll": True}, 6, 1),
+                 ({"max_tick": 2, "max_loss": 3, "max_edit": 1, "max_adv": 1, "poll": False, "max_silent": 1}, 9, 0)]
         cap = 700
     for gen in (4, 5):
         for extra, depth, dev in plans:
@@ -293,6 +309,6 @@ def run(tier, seed, part=None):
                 extra = dict(extra, max_tick=3)
             params = dict(gen=gen, macro=(dev == 0), **extra)
             res = explorer.explore(SPEC, params, depth, dev, time_cap=cap, seed=seed, label=f"at{gen}/{extra}")
-            chk.add_explorer(f"at{gen}/" + ("poll" if extra.get("poll") else "reconnect"), SPEC, params, res,
+            chk.add_explorer(f"at{gen}/" + ("poll" if extra.get("poll") else ("silent-console" if extra.get("max_silent") else "reconnect")), SPEC, params, res,
                              {"depth": depth, "deviations": dev, **extra})
     return chk.finish()
